@@ -149,6 +149,7 @@ func (p *ProjectRunner) runProcess(config *types.ProcessConfig) {
 			log.Error().Msgf("Error: %s", err.Error())
 			log.Error().Msgf("Error: process %s won't run", proc.getName())
 			proc.wontRun()
+			p.addDoneProcess(proc)
 			p.onProcessSkipped(proc.procConf)
 		} else {
 			verifYield("runProcess.afterWait", proc.getName())
